@@ -263,4 +263,66 @@ wc_harness!(c01_add_late_accepted, add_appointment_step(Some(0), false, Pre::Fre
 wc_harness!(c01_add_late_garbled, add_appointment_step(Some(0), false, Pre::Fresh, true, true, false, Outcome::Ok, 3));
 wc_harness!(c01_add_late_rejected, add_appointment_step(Some(0), false, Pre::Fresh, true, true, true, Outcome::Rpc(-26), 3));
 wc_harness!(c11_add_late_already_in_chain, add_appointment_step(Some(0), false, Pre::Fresh, true, true, true, Outcome::Rpc(-27), 3));
-wc_harness!(c11_add_late_update_of_stored, add_appointment_step(Some(0), false, Pre::Stored, true, true, true, Outcome::Ok, 3));
+
+// ------------------------------------------------------------------------------------------------ late appointments
+/// C01.P4 / C11: `store_triggered_appointment` (what add_appointment calls on a cache hit, with the cached dispute
+/// transaction) as a unit: decrypts with the dispute's id; a decrypted penalty is stored and handed to the responder;
+/// a refused penalty takes the appointment away again; an undecryptable blob stores nothing.
+fn store_triggered_step(pre: Pre, blob_ok: bool, node_reply: Outcome) {
+    let w = concrete_watcher(false, false);
+    let ch: u32 = kani::any();
+    w.responder.verif_set_carrier_height(ch);
+    let uuid0 = the_uuid(0);
+    if pre != Pre::Fresh {
+        w.dbm.lock().unwrap().verif_push_appointment(uuid0, ExtendedAppointment::new(appointment_with_blob(DISPUTE as u8, 7, 9, 9, 5), user(0), sig_of(b'o'), 3));
+    }
+    w.dbm.lock().unwrap().verif_push_appointment(the_uuid(1), ExtendedAppointment::new(appointment_with_blob(DISPUTE as u8, 7, 8, 8, 6), user(1), sig_of(b'p'), 2));
+    let (b0, b1) = if blob_ok { (1u8, DISPUTE as u8) } else { (7u8, 7u8) };
+    let delay: u32 = kani::any();
+    let start: u32 = kani::any();
+    let ext = ExtendedAppointment::new(appointment_with_blob(DISPUTE as u8, 3, b0, b1, delay), user(0), sig_of(b'u'), start);
+    unsafe {
+        node::SCRIPT = Some(node_reply);
+        node::QUERY_SCRIPT = Some(Outcome::Rpc(-5));
+    }
+    let other_before = w.dbm.lock().unwrap().verif_app_row(the_uuid(1));
+    let dispute = tx(DISPUTE);
+    let r = w.store_triggered_appointment(uuid0, &ext, user(0), &dispute);
+    let dbm = w.dbm.lock().unwrap();
+    let row = dbm.verif_app_row(uuid0);
+    let trk = dbm.verif_tracker_row(uuid0);
+    let n_sent = unsafe { node::N_SENT };
+    assert!(unsafe { DECRYPT_CALLS } == 1 && unsafe { DECRYPT_ARGS } == (3, b0, b1, DISPUTE as u8),
+        "C01.late: the blob is decrypted with the id of the dispute transaction");
+    assert!(dbm.verif_app_row(the_uuid(1)) == other_before, "C06.isolation: another user's appointment for the same locator is never altered");
+    if !blob_ok {
+        assert!(r == TriggeredAppointment::Invalid && n_sent == 0 && trk.is_none() && row.is_none(), "C02/C01.late: a blob that does not decrypt is dropped and nothing is sent");
+    } else {
+        assert!(n_sent == 1 && unsafe { node::SENT[0] }.map(|t| AsRef::<[u8; 32]>::as_ref(&t)[0]) == Some((DISPUTE + 100) as u8),
+            "C01.late: the decrypted penalty is submitted before the request is answered");
+        let verdict = crate::carrier::verif_harness::expected_status(node_reply, ch);
+        if verdict.accepted() {
+            assert!(r == TriggeredAppointment::Accepted, "C01.late: accepted");
+            assert!(row.map_or(false, |a| a.blob_tag == [b0, b1] && a.to_self_delay == delay && a.sig == b'u' && a.start_block == start && uid(&a.user_id) == 0),
+                "C08.stored: the accepted version is what is stored");
+            assert!(trk.map_or(false, |t| t.dispute == DISPUTE && t.penalty == DISPUTE + 100 && t.status == verdict && uid(&t.user_id) == 0),
+                "C01.late: from then on the appointment is a tracker with exactly that dispute and penalty");
+        } else if matches!(verdict, ConfirmationStatus::Rejected(_)) {
+            assert!(r == TriggeredAppointment::Rejected && row.is_none() && trk.is_none(), "C01.late: if the node refuses the penalty only that appointment is dropped");
+        } else {
+            assert!(trk.is_none(), "C02: no tracker without the node having taken the penalty");
+            assert!(row.is_none(), "C11.retrigger: a late appointment whose penalty the node reports as already in the chain is not left behind without a tracker");
+        }
+    }
+    kani::cover!(true, "reach");
+    drop(dbm);
+    std::mem::forget(w);
+}
+
+wc_harness!(c01_late_accepted, store_triggered_step(Pre::Fresh, true, Outcome::Ok));
+wc_harness!(c01_late_garbled, store_triggered_step(Pre::Fresh, false, Outcome::Ok));
+wc_harness!(c01_late_rejected, store_triggered_step(Pre::Fresh, true, Outcome::Rpc(-26)));
+wc_harness!(c11_late_already_in_chain, store_triggered_step(Pre::Fresh, true, Outcome::Rpc(-27)));
+// (the shape `row exists + cache hit + no tracker` was reachable before the F15 fix and made store_appointment().unwrap()
+// panic; after the fix every processed dispute leaves a tracker or no row, which c11_late_already_in_chain and
+// c01_late_* assert, so that pre-state is excluded as unreachable)
